@@ -65,6 +65,36 @@ out.append('\nOf %d seeded changes %d were caught by the target property\'s chec
            'every miss led to a generator or oracle extension (never to a loosened check), after which all are caught '
            '(two of them by the neighbouring property that owns the behaviour, see notes). Second round alone: %d of %d '
            'caught on arrival.\n' % (tot, first, r2first, r2tot))
+# 7.3 behaviour-preserving refactorings
+rp = os.path.join(V, 'refactorings', 'results.txt')
+if os.path.exists(rp):
+    lines = [l.split() for l in open(rp) if l.strip()]
+    nok = sum(1 for l in lines if l[-1] == 'ok')
+    out.append('### 7.3 Behaviour-preserving refactorings (`refactorings/<area>/refactorN.diff`): do the checks stay quiet?\n')
+    out.append('Six further sub-agents (again without access to `/verif`) each wrote three substantial refactorings of one area '
+               'that must not change any observable behaviour - restructured control flow, extracted / renamed / removed internal '
+               'helpers and changed their signatures, equivalent conv / padding / indexing formulations, re-ordered floating-point '
+               'operations (results differ in the last bits), modernised API usage - and verified them with their own differential '
+               'harness against HEAD. The quick tier of every relevant check was then run against each of the 18 refactorings '
+               '(`tools/refac_check.sh`, results in `refactorings/results.txt`): **%d of %d check runs exit 0, no VIOLATION and no '
+               'harness error**. (Before this experiment the "only moved / unchanged" relations of C12 and C15 were strictly '
+               'bitwise; they now tolerate and count up to 64 ulp so that a legitimate re-ordering between two code paths is '
+               'not an alarm; C18 no longer demands that `biort()` rejects the legacy tables; C08 accepts any distribution of '
+               'the repeated border rows before reporting a value mismatch.)\n' % (nok, len(lines)))
+    out.append('| area | refactoring | FP order changed | internal API changed | checks run | result |')
+    out.append('|---|---|---|---|---|---|')
+    for area in sorted(os.listdir(os.path.join(V, 'refactorings'))):
+        mp = os.path.join(V, 'refactorings', area, 'meta.json')
+        if not os.path.exists(mp):
+            continue
+        for m in json.load(open(mp)):
+            f = m.get('file', '')
+            runs = [l for l in lines if l[0] == '%s/%s' % (area, f)]
+            out.append('| %s | %s: %s | %s | %s | %s | %s |' % (
+                area, f, str(m.get('summary', ''))[:200].replace('|', '/').replace('\n', ' '), m.get('fp_order_changed'),
+                m.get('internal_api_changed'), ' '.join(l[1] for l in runs),
+                'all ok' if runs and all(l[-1] == 'ok' for l in runs) else 'SEE results.txt'))
+    out.append('')
 text = '\n'.join(out) + '\n'
 p = os.path.join(V, 'DESIGN.md')
 s = open(p).read()
